@@ -1883,7 +1883,10 @@ def l_galreply( ctx ):
     if branch is None:
         raise AnalysisError( 'Object.request: the branch that answers Get Attribute List not found' )
     env = dict( consts )
-    env.update( { 'data': { 'service': consts.get( 'GA_LST_RPY' ), 'get_attribute_list': [ 1, 2, 99 ] }, 'result': b'', 'UINT.produce': lambda v: struct.pack( '<H', v ),
+    ACC = sorted( { a_.target.id for st_ in branch for a_ in ast.walk( st_ ) if isinstance( a_, ast.AugAssign ) and isinstance( a_.target, ast.Name ) } )
+    if not ACC:
+        raise AnalysisError( 'Object.request: the accumulator of the Get Attribute List reply not found' )
+    env.update( { 'data': { 'service': consts.get( 'GA_LST_RPY' ), 'get_attribute_list': [ 1, 2, 99 ] }, ACC[0]: b'', 'UINT.produce': lambda v: struct.pack( '<H', v ),
                   'self.attribute': { '1': Record( produce=lambda: b'\x05\x00' ), '2': Record( produce=lambda: b'\x03\xb2\x80\xc5' ) },
                   'str': str, 'dotdict': lambda *a, **kw: dict( *a, **kw ), 'type': type, 'int': int, 'ord': ord, 'len': len } )
     try:
